@@ -120,6 +120,11 @@ def run(tier, seed, replay=None):
                         fonts[key] = (out, v, bool(c), bool(p))
                     else:
                         stats["rejected"] += 1
+                        if rc not in (0, 1):
+                            dd = harness.save_case(rep, {"dir": d, "name": "c%04d" % ci}, "c%04d-%s-crash" % (ci, key.replace(" ", "")))
+                            rep.violation("c%04d-%s-crash" % (ci, key.replace(" ", "")), {
+                                "problem": "the compiler ended with status %s under options '%s'" % (rc, key), "log": log[-400:],
+                                "rerun": "cd %s && grcompiler -q %s p.gdl in.ttf out.ttf" % (dd, key if key != "default" else "")})
         if "default" not in fonts:
             continue
         problems = []
